@@ -76,7 +76,9 @@ void harness(void)
 			     m.offset < sizeof(m.data),
 			     "C13.meta_append.accounts");
 	VERIF_COVER(ret == 0 && size == 0);
+#if APPEND_MAX > 8192
 	VERIF_COVER(ret == 0 && g_flushes == 2 && m.offset > 0);
+#endif
 	VERIF_COVER(ret == 0 && g_flushes == 1 && m.offset == 0);
-	VERIF_COVER(ret != 0 && g_flushes == 2);
+	VERIF_COVER(ret != 0 && g_flushes == 1);
 }
